@@ -72,7 +72,7 @@ fn lane_c12(part: usize, _parts: usize, seed: u64, n: usize, acc: &mut Acc) {
             fee_growth_global_b: r.gen(),
             reward_last_updated_timestamp: 1_000,
             reward_infos: [
-                codec::RewardInfo { mint: pool_key, vault: pool_key, emissions_per_second_x64: rnd::log_u128(&mut r, 80), growth_global_x64: r.gen(), ..Default::default() },
+                codec::RewardInfo { mint: pool_key, vault: pool_key, emissions_per_second_x64: if k % 4 == 1 { 0 } else { rnd::log_u128(&mut r, 80) }, growth_global_x64: r.gen(), ..Default::default() },
                 Default::default(),
                 Default::default(),
             ],
